@@ -32,8 +32,30 @@ def convcases(draw):
     return dict(ystep=ystep, seed=seed, y0off=y0off, shape=shape, special=special)
 
 
+class _NoWrite(object):
+    """proxy of a module: every call is followed by a comparison of its array arguments with copies taken before -
+    conversions return new values, they do not write into what they were given"""
+
+    def __init__(self, mod, fails):
+        self._mod, self._fails = mod, fails
+
+    def __getattr__(self, name):
+        fn = getattr(self._mod, name)
+        if not callable(fn):
+            return fn
+
+        def call(*a, **k):
+            before = [(i, x.copy()) for i, x in enumerate(a) if isinstance(x, np.ndarray)]
+            out = fn(*a, **k)
+            for i, c in before:
+                if not np.array_equal(a[i], c, equal_nan=True):
+                    self._fails.append(fail("inputs", "%s wrote into its argument %d" % (name, i), fn=name))
+            return out
+        return call
+
+
 def check_conv(case, rec=None):
-    from ImageD11.sinograms import geometry as G
+    from ImageD11.sinograms import geometry as G_
     from ImageD11.sinograms import point_by_point as pbp
     rng = np.random.RandomState(case["seed"] % (2 ** 32))
     ystep = case["ystep"]
@@ -51,6 +73,7 @@ def check_conv(case, rec=None):
     shape = tuple(case["shape"])
     tol = 1e-9 * (R + abs(y0) + 1)
     fails = []
+    G = _NoWrite(G_, fails)
 
     def near(a, b, t=tol):
         return np.all(np.abs(np.asarray(a, float) - np.asarray(b, float)) <= t)
